@@ -904,9 +904,22 @@ func Walk(v ssa.Value, visit func(ssa.Value) bool) {
 			rec(x.Index)
 		case *ssa.Extract:
 			rec(x.Tuple)
+			// a result of an expanded callee: whatever any of its returns yields there
+			if c, ok := x.Tuple.(*ssa.Call); ok {
+				if g := expandedCallee(c); g != nil {
+					for _, rv := range returnValues(g, x.Index) {
+						rec(rv)
+					}
+				}
+			}
 		case *ssa.FreeVar:
 			if b := Binding(x); b != nil {
 				rec(b)
+			}
+		case *ssa.Parameter:
+			// a parameter of an expanded callee stands for the argument of its only call
+			if u := Unwrap(x); u != ssa.Value(x) {
+				rec(u)
 			}
 		case *ssa.Alloc:
 			// address of a local aggregate: everything stored into it or its parts
@@ -940,6 +953,12 @@ func Walk(v ssa.Value, visit func(ssa.Value) bool) {
 			if b, ok := x.Call.Value.(*ssa.Builtin); ok && (b.Name() == "append") {
 				for _, a := range x.Call.Args {
 					rec(a)
+				}
+			}
+			// the call of an expanded callee stands for what the callee returns
+			if g := expandedCallee(x); g != nil && g.Signature.Results().Len() == 1 {
+				for _, rv := range returnValues(g, 0) {
+					rec(rv)
 				}
 			}
 		}
